@@ -305,17 +305,57 @@ class Tie:
                                stdout=f, stderr=subprocess.PIPE, text=True, env=goenv())
         return p.returncode == 0, p.stderr
 
-    def execute(self, timeout):
+    def execute(self, timeout, env=None):
+        """run implementation and model over the ops file.  A harness process that dies (a panic in
+        a goroutine of the code under test cannot be recovered) is restarted at the next case: the
+        line it died on gets the output `<crash>`, the rest of that case `<skipped>`."""
         errs = []
-        for name, cmd in (("impl", self.impl_cmd()), ("model", self.model_cmd())):
-            with open(self.path("ops")) as i, open(self.path(name), "w") as o:
-                try:
-                    p = subprocess.run(cmd, stdin=i, stdout=o, stderr=subprocess.PIPE, text=True,
-                                       timeout=timeout, env=goenv())
-                    if p.returncode != 0:
-                        errs.append("%s exited %d: %s" % (name, p.returncode, p.stderr[-2000:]))
-                except subprocess.TimeoutExpired:
-                    errs.append("%s timed out after %ds" % (name, timeout))
+        e = goenv()
+        e.update(env or {})
+        ops = open(self.path("ops")).read().split("\n")
+        if ops and ops[-1] == "":
+            ops.pop()
+        starts = split_cases(ops)
+        outs = []
+        pos, crashes = 0, 0
+        t_end = time.time() + timeout
+        while pos < len(ops):
+            try:
+                p = subprocess.run(self.impl_cmd(), input="".join(l + "\n" for l in ops[pos:]),
+                                   stdout=subprocess.PIPE, stderr=subprocess.PIPE, text=True,
+                                   timeout=max(1, t_end - time.time()), env=e)
+            except subprocess.TimeoutExpired:
+                errs.append("impl timed out after %ds" % timeout)
+                break
+            got = p.stdout.split("\n")
+            if got and got[-1] == "":
+                got.pop()
+            outs += got
+            pos += len(got)
+            if pos >= len(ops):
+                break
+            # died before answering line `pos`
+            crashes += 1
+            outs.append("<crash>")
+            pos += 1
+            nxt = next((s for s in starts if s >= pos), len(ops))
+            outs += ["<skipped>"] * (nxt - pos)
+            pos = nxt
+            if crashes == 1:
+                self.crash_stderr = p.stderr[-3000:]
+            if crashes > 200:
+                errs.append("impl crashed more than 200 times; giving up")
+                break
+        with open(self.path("impl"), "w") as o:
+            o.write("".join(l + "\n" for l in outs))
+        with open(self.path("ops")) as i, open(self.path("model"), "w") as o:
+            try:
+                p = subprocess.run(self.model_cmd(), stdin=i, stdout=o, stderr=subprocess.PIPE, text=True,
+                                   timeout=timeout)
+                if p.returncode != 0:
+                    errs.append("model exited %d: %s" % (p.returncode, p.stderr[-2000:]))
+            except subprocess.TimeoutExpired:
+                errs.append("model timed out after %ds" % timeout)
         return errs
 
 
